@@ -43,12 +43,19 @@ type cell struct {
 // projectRow projects one query's records onto reference coordinates. ok=false if a record
 // runs past the reference or the query has no aligned base (outside the property's domain).
 func projectRow(g samGroup, L int) ([]cell, bool) {
+	row, ok, any := projectRowAny(g, L)
+	return row, ok && any
+}
+
+// projectRowAny is projectRow that also accepts a query none of whose records aligns a base (CIGARs made of
+// clips, insertions, deletions and skips only): any=false then, and every position is uncovered or deleted.
+func projectRowAny(g samGroup, L int) ([]cell, bool, bool) {
 	row := make([]cell, L)
 	any := false
 	for _, rec := range g.recs {
 		p := rec.Pos - 1
 		if p < 0 {
-			return nil, false
+			return nil, false, false
 		}
 		qi := 0
 		for _, op := range rec.Cigar {
@@ -56,7 +63,7 @@ func projectRow(g samGroup, L int) ([]cell, bool) {
 			case 'M', '=', 'X':
 				for k := 0; k < op.Len; k++ {
 					if p >= L || qi >= len(rec.Seq) {
-						return nil, false
+						return nil, false, false
 					}
 					b := rec.Seq[qi]
 					c := &row[p]
@@ -75,7 +82,7 @@ func projectRow(g samGroup, L int) ([]cell, bool) {
 			case 'D':
 				for k := 0; k < op.Len; k++ {
 					if p >= L {
-						return nil, false
+						return nil, false, false
 					}
 					if row[p].state == cellNone {
 						row[p].state = cellDel
@@ -85,7 +92,7 @@ func projectRow(g samGroup, L int) ([]cell, bool) {
 			case 'N':
 				p += op.Len
 				if p > L {
-					return nil, false
+					return nil, false, false
 				}
 			case 'I', 'S':
 				qi += op.Len
@@ -93,7 +100,7 @@ func projectRow(g samGroup, L int) ([]cell, bool) {
 			}
 		}
 	}
-	return row, any
+	return row, true, any
 }
 
 func renderRow(row []cell, pad bool) string {
@@ -146,7 +153,7 @@ func tomaModel(sc *SamCase, o Opts) (string, bool) {
 	L := len(sc.RefSeq)
 	var sb strings.Builder
 	for _, g := range samGroups(sc) {
-		row, ok := projectRow(g, L)
+		row, ok, _ := projectRowAny(g, L)
 		if !ok {
 			return "", false
 		}
